@@ -46,10 +46,10 @@ def gen_cases(tier, seed):
                       "smat": [np.eye(3, dtype=int).tolist(), np.diag([2, 1, 1]).tolist(), [[1, 1, 0], [-1, 1, 0], [0, 0, 1]]][rng.integers(3)],
                       "pmat": ["P", "centring"][rng.integers(2)], "calculator": CALCS[i % len(CALCS)], "dataset": ["type1", "type1", "type2", "none"][rng.integers(4)],
                       "fc": ["full", "compact", "none"][rng.integers(3)], "nac": bool(rng.integers(2)) and not mag, "xz": bool(rng.integers(3) == 0),
-                      "custom_masses": bool(rng.integers(4) == 0), "decoys": bool(i % 2), "settings_bits": int(rng.integers(32)), "settings_form": int(rng.integers(5)), "seed": int(rng.integers(10 ** 6))})
+                      "custom_masses": bool(rng.integers(4) == 0), "decoys": bool(rng.integers(2)), "settings_bits": int(rng.integers(32)), "settings_form": int(rng.integers(5)), "seed": int(rng.integers(10 ** 6))})
     for i in range(16 if tier == "quick" else 100):
-        cases.append({"kind": "fileio", "crystal": {"name": names[i % len(names)]}, "smat": [np.diag([2, 1, 1]).tolist(), [[1, 1, 0], [-1, 1, 0], [0, 0, 1]]][i % 2],
-                      "pmat": ["P", "centring"][i % 2], "scale": float(10 ** rng.uniform(-8, 7)), "seed": int(rng.integers(10 ** 6))})
+        cases.append({"kind": "fileio", "crystal": {"name": names[i % len(names)]}, "smat": [np.diag([2, 1, 1]).tolist(), [[1, 1, 0], [-1, 1, 0], [0, 0, 1]]][rng.integers(2)],
+                      "pmat": ["P", "centring"][rng.integers(2)], "scale": float(10 ** rng.uniform(-8, 7)), "seed": int(rng.integers(10 ** 6))})
     for i in range(6 if tier == "quick" else 24):
         cases.append({"kind": "priority", "crystal": {"name": ["rocksalt", "cscl", "zincblende"][i % 3]}, "seed": int(rng.integers(10 ** 6))})
     return cases
